@@ -90,7 +90,7 @@ func runC03(t *testing.T, cfg c03Cfg) {
 	p2 = s.MustCreate(sc.parentInfo().GVR(), p2)
 
 	expected := map[string]map[string]string{} // hookKey -> inner key -> uid
-	adoptions := map[string]bool{}              // resource/ns/name expected to be adopted
+	adoptions := map[string]bool{}             // resource/ns/name expected to be adopted
 	releases := map[string]bool{}
 	for _, k := range cfg.Kinds {
 		ri := kindInfo(k)
